@@ -11,7 +11,7 @@ ANCHORS = ['prover/circuit_utils.go', 'prover/insertion_circuit.go', 'prover/del
 def sizes(kind, tier):
     dmax = 32 if kind == 'ins' else 31
     if tier == 'quick':
-        return [(1, 1), (2, 2), (3, 2), (4, 3), (8, 2), (dmax, 1)]
+        return [(1, 1), (2, 2), (3, 2), (4, 3), (6, 4), (8, 2), (12, 2), (16, 1), (16, 2), (24, 1), (dmax, 1), (dmax, 2)]
     s = [(d, 1) for d in range(1, dmax + 1)]
     s += [(d, b) for d in range(1, 9) for b in range(2, 5) if kind == 'del' or b <= (1 << d)]      # an insertion batch must fit the tree (else circuit and relation are both empty)
     s += [(16, 2), (20, 4), (dmax, 2), (12, 3)]
